@@ -119,7 +119,7 @@ func TestVerifC04(t *testing.T) {
 	geo := verifC04GeoModel()
 	vk.Geo = geo
 	defer func() { vk.Geo = nil }()
-	dir := filepath.Join(vk.VerifDir(), "build", "run", "C04", fmt.Sprintf("assets-%d", os.Getpid()))
+	dir := filepath.Join(vk.BuildDir(), "run", "C04", fmt.Sprintf("assets-%d", os.Getpid()))
 	if err := verifWriteGeoFiles(dir, geo); err != nil {
 		m.Inconclusive("cannot write geodata files: %v", err)
 		m.Done(t)
